@@ -157,7 +157,7 @@ def model_builders():
     }
 
 
-ACTIONS = ("build", "evaluate", "compile", "degree", "solve-auto", "solve-SLSQP", "nested-compile", "roots", "gradient")
+ACTIONS = ("build", "evaluate", "compile", "degree", "solve-auto", "solve-SLSQP", "nested-compile", "roots", "gradient", "solve-options")
 REUSE_ACTIONS = ("gradient", "degree", "compile", "solve-auto", "solve-SLSQP", "evaluate")
 
 
@@ -254,6 +254,13 @@ def act(built, action):
                 built["P"].solve()
             elif action == "solve-SLSQP":
                 built["P"].solve(method="SLSQP")
+            elif action == "solve-options":
+                # per-call solver options of an earlier solve (tight iteration cap, loose tolerance) for every method
+                for m_ in ("auto", "SLSQP", "L-BFGS-B", "trust-constr"):
+                    try:
+                        built["P"].solve(**({} if m_ == "auto" else {"method": m_}), maxiter=2, tol=1e-2)
+                    except Exception:
+                        pass
             elif action == "nested-compile":
                 f = (e * 2.0) + 1.0
                 compiler.compile_expression(f, V)
@@ -389,7 +396,8 @@ def histories(tier, model=None):
     for a in M:
         yield (a,)
     if tier == "quick":
-        core = [x for x in M if x[0] == "flood" or (x[0] == "adv" and x[1] in ("same", "pvalue", "data", "bounds", "view", "dense") and x[2] in ("compile", "roots", "solve-auto", "nested-compile"))
+        core = [x for x in M if x[0] == "flood" or (x[0] == "adv" and x[1] in ("same", "pvalue", "data", "view", "dense") and x[2] in ("compile", "roots", "solve-auto"))
+                or x == ("adv", "data", "solve-options")
                 or x in (("reuse", "data", "gradient"), ("reuse", "pvalue", "degree"))]
         for a in core:
             for b in core:
